@@ -15,6 +15,22 @@ def dump_mir(overflow_checks=True):
     d = os.path.join(TARGET, 'mir-' + ('oc' if overflow_checks else 'nooc'))
     os.makedirs(d, exist_ok=True)
     out = os.path.join(d, 'rl.mir')
+    # like cargo, skip the work when no input changed: fingerprint = content hash of every source file + manifests
+    h = hashlib.sha1()
+    files = [os.path.join(REPO, 'Cargo.toml'), os.path.join(REPO, 'Cargo.lock'), os.path.join(REPO, 'build.rs'), os.path.join(REPO, 'rust-toolchain')]
+    for root, _, names in os.walk(os.path.join(REPO, 'src')):
+        files += [os.path.join(root, n) for n in names]
+    for root, _, names in os.walk(os.path.join(REPO, 'proto')):
+        files += [os.path.join(root, n) for n in names if not root.endswith('target')]
+    for f in sorted(files):
+        if os.path.isfile(f):
+            h.update(f.encode())
+            h.update(open(f, 'rb').read())
+    fp = h.hexdigest()
+    fpfile = out + '.fingerprint'
+    if os.path.exists(out) and os.path.exists(fpfile) and open(fpfile).read() == fp and os.path.getsize(out) > 1000:
+        log('MIR dump is up to date with the source tree (fingerprint %s)' % fp[:10])
+        return out
     env = dict(os.environ)
     env.update(RUSTUP_TOOLCHAIN=REPO_TOOLCHAIN, CARGO_NET_OFFLINE='true', RUSTFLAGS=GUARD_FLAGS)
     # the unpretty pass prints nothing when cargo considers the crate fresh: force a rebuild of the lib only
@@ -28,6 +44,7 @@ def dump_mir(overflow_checks=True):
         log(p.stderr[-3000:])
         raise Inconclusive('MIR dump failed')
     log('MIR dumped in %.1fs (%d bytes)' % (time.time() - t0, os.path.getsize(out)))
+    open(fpfile, 'w').write(fp)
     return out
 
 
